@@ -64,6 +64,7 @@ struct inproc_ep {
 	nni_list      aios;
 	size_t        rcvmax;
 	nni_mtx       mtx;
+	bool          closed; // under nni_inproc.mx
 };
 
 // nni_inproc is our global state - this contains the list of active endpoints
@@ -318,6 +319,7 @@ inproc_ep_close(void *arg)
 	nni_aio   *aio;
 
 	nni_mtx_lock(&nni_inproc.mx);
+	ep->closed = true;
 	if (nni_list_active(&nni_inproc.servers, ep)) {
 		nni_list_remove(&nni_inproc.servers, ep);
 	}
@@ -451,6 +453,12 @@ inproc_ep_connect(void *arg, nni_aio *aio)
 	nni_aio_reset(aio);
 
 	nni_mtx_lock(&nni_inproc.mx);
+	if (ep->closed) {
+		// (a start racing the close must not link us to a server)
+		nni_mtx_unlock(&nni_inproc.mx);
+		nni_aio_finish_error(aio, NNG_ECLOSED);
+		return;
+	}
 
 	// Find a server.
 	NNI_LIST_FOREACH (&nni_inproc.servers, server) {
@@ -488,6 +496,10 @@ inproc_ep_bind(void *arg, nng_url *url)
 	NNI_ARG_UNUSED(url);
 
 	nni_mtx_lock(&nni_inproc.mx);
+	if (ep->closed) {
+		nni_mtx_unlock(&nni_inproc.mx);
+		return (NNG_ECLOSED);
+	}
 	NNI_LIST_FOREACH (list, srch) {
 		if (strcmp(srch->addr, ep->addr) == 0) {
 			nni_mtx_unlock(&nni_inproc.mx);
@@ -507,6 +519,11 @@ inproc_ep_accept(void *arg, nni_aio *aio)
 	nni_aio_reset(aio);
 
 	nni_mtx_lock(&nni_inproc.mx);
+	if (ep->closed) {
+		nni_mtx_unlock(&nni_inproc.mx);
+		nni_aio_finish_error(aio, NNG_ECLOSED);
+		return;
+	}
 
 	// We need not worry about the case where a non-blocking
 	// accept was tried -- there is no API to do such a thing.
